@@ -31,6 +31,7 @@
   every resumed history, a part of them driven through Stream, with the uninterrupted run).
 -/
 import EinoV.Model.C05
+import EinoV.Model.C05Eager
 import EinoV.Model.GraphBuild
 import EinoV.Proofs.C05
 import EinoV.Proofs.C05Engine
@@ -273,5 +274,115 @@ theorem stale_checkpoint_reapplied :
   intro hf
   have := hf [("s", true)] (by simp) ("s", true) (by simp)
   simp at this
+
+/-! ## Eager mode (Workflows): the interrupt site after `tm.waitAll()`
+
+  Model: EinoV/Model/C05Eager.lean (`callLoop`, `secondSite`, `historyE`), reference run:
+  `EinoV.Engine.runEager` (Model/C02Workflow.lean).
+
+  FULL STATEMENT for eager mode, kept visible (NOT proved):
+    resume_equiv_eager : ∀ r (DagWF r.base) pick x calls, (historyE ops .pending r pick calls x) completes →
+      (historyE ops .pending r pick calls x).final = (runEager ops r.base pick' x).result  for every pick'
+      ∧ (historyE …).execs ~ (runEager …).submitted                       (as multisets)
+  MISSING: that folding the drained tasks without `get` and taking the ready channels at the first
+  `calculateNextTasks` after the resume yields the tasks the uninterrupted eager loop submits one
+  completion at a time (a confluence argument over `calcNext`, as for C02's run-level theorems).
+  What IS machine-checked here: the tie of the source fact, what the repaired site persists, and the
+  negation witnesses showing that the two other variants of the site are NOT resume-equivalent
+  (replayed on the real code: replays/C05-witness-eager-*.json).  On generated workflows the statement
+  is checked on the implementation (harness/props/c05_eager.go) and, for the model's `pending`
+  variant, by the oracle under several completion schedules. -/
+section Eager
+open EinoV.Interrupt.Eager
+
+/-- **Source fact tie for the eager drain site.**  `0` = the shipped code
+    (`append(completedTasks, newCompletedTasks...)`, next tasks dropped: the recorded finding, see
+    `eager_refold_loses_join` / `eager_refold_loses_carried_ready`), `2` = the repaired site
+    (fixes/C05-eager-drain-pending.diff).  `1` (only the drained tasks, next tasks dropped) is the
+    regression `eager_drainedOnly_loses_successor` refutes; any other shape is unknown to the model. -/
+theorem eager_drain_fact_recognised :
+    FactsC05.eagerDrainSave = 0 ∨ FactsC05.eagerDrainSave = 2 := by decide
+
+/-- What the repaired site persists is the paused loop state: the channels after every task collected
+    so far (`cm'` already contains the first batch, the drained ones are folded in), the tasks already
+    computed but not submitted (`ts`), and the aborting tasks — nothing is dropped, nothing is folded
+    twice.  (Definitional; the equivalence with the uninterrupted loop is the unproved part.) -/
+theorem eager_second_site_pending_partial (r : Runner V) (cm' : Chans V) (o : Done V) (ts : List (Key × V))
+    (d : Drained V) :
+    secondSite .pending r cm' o ts d =
+      (match foldDone r cm' d.others with
+       | .error e => .error e
+       | .ok cm2 => .ok { chans := cm2, inputs := ts ++ d.aborting, att := d.att }) := rfl
+
+/-- a resumed call continues the eager loop from exactly what was persisted -/
+theorem eager_resume_from_checkpoint (ops : ValOps V) (save : DrainSave) (r : EIRunner V) (pick : Pick V) (cp : ECp V) :
+    callE ops save r pick (.inr cp) = callLoop ops save r pick r.base.eagerFuel cp.chans cp.inputs cp.att [] := rfl
+
+/-- START → a, START → j, a → j (join, interrupt-before), START → s (aborts once); j, s → END -/
+def wJoin : EIRunner Nat :=
+  { base := compileW natOps
+      { nodes := [("a", fun v => .ok (v + 1)), ("j", fun v => .ok (v * 2)), ("s", fun v => .ok (v + 10))],
+        deps := [.input START "a", .input START "j", .input "a" "j", .input START "s", .input "j" END, .input "s" END],
+        branches := [] },
+    intBefore := ["j"], aborts := [("s", 1)] }
+
+/-- START → a → b (interrupt-before), START → s (aborts once); b, s → END -/
+def wSingle : EIRunner Nat :=
+  { base := compileW natOps
+      { nodes := [("a", fun v => .ok (v + 1)), ("b", fun v => .ok (v * 2)), ("s", fun v => .ok (v + 10))],
+        deps := [.input START "a", .input "a" "b", .input START "s", .input "b" END, .input "s" END],
+        branches := [] },
+    intBefore := ["b"], aborts := [("s", 1)] }
+
+/-- like `wSingle` with a second aborting sibling r (aborts twice) -/
+def wCarried : EIRunner Nat :=
+  { base := compileW natOps
+      { nodes := [("a", fun v => .ok (v + 1)), ("b", fun v => .ok (v * 2)), ("s", fun v => .ok (v + 10)), ("r", fun v => .ok (v + 100))],
+        deps := [.input START "a", .input "a" "b", .input START "s", .input START "r",
+                 .input "b" END, .input "s" END, .input "r" END],
+        branches := [] },
+    intBefore := ["b"], aborts := [("s", 1), ("r", 2)] }
+
+/-- completion schedule: `a` finishes first, otherwise the oldest task -/
+def aFirst : Pick Nat := fun l => (l.findIdx? (fun t => t.1 == "a")).getD 0
+
+def okOfE (o : EOutcome Nat) : Option Nat := match o.result with | .ok v => some v | .error _ => none
+
+/-- **Negation witness for the shipped site** (`eagerDrainSave = 0`): a join whose other predecessor
+    (START) reported in an earlier step is lost — the run ends with `no tasks to execute`, the
+    uninterrupted run returns 17 (replays/C05-witness-eager-join-lost.json on the real code). -/
+theorem eager_refold_loses_join :
+    (historyE natOps .refold wJoin aFirst 6 1).final.errCls? = some .noTasks ∧
+    ¬ ("j" ∈ (historyE natOps .refold wJoin aFirst 6 1).execs.map (·.1)) ∧
+    okOfE (runEager natOps wJoin.base aFirst 1) = some 17 := by decide
+
+/-- second manifestation of the shipped site: a node carried *ready* in the channels of the previous
+    checkpoint is not a successor of the first batch at all (two aborting siblings;
+    replays/C05-witness-eager-carried-ready-lost.json) -/
+theorem eager_refold_loses_carried_ready :
+    (historyE natOps .refold wCarried aFirst 8 1).final.errCls? = some .noTasks ∧
+    ¬ ("b" ∈ (historyE natOps .refold wCarried aFirst 8 1).execs.map (·.1)) ∧
+    okOfE (runEager natOps wCarried.base aFirst 1) = some 116 := by decide
+
+/-- **Negation witness for the regression** (`eagerDrainSave = 1`): already the single-predecessor
+    successor of the task that finished first is lost (the shipped site gets this one right) -/
+theorem eager_drainedOnly_loses_successor :
+    (historyE natOps .drainedOnly wSingle aFirst 6 1).final.errCls? = some .noTasks ∧
+    ¬ ("b" ∈ (historyE natOps .drainedOnly wSingle aFirst 6 1).execs.map (·.1)) ∧
+    (historyE natOps .refold wSingle aFirst 6 1).final.val? = okOfE (runEager natOps wSingle.base aFirst 1) ∧
+    okOfE (runEager natOps wSingle.base aFirst 1) = some 15 := by decide
+
+/-- the repaired site is resume-equivalent on all three witnesses: same result, same executions as the
+    uninterrupted eager run (non-vacuity: each history does interrupt) -/
+theorem eager_pending_equiv_on_witnesses :
+    (historyE natOps .pending wJoin aFirst 6 1).final.val? = okOfE (runEager natOps wJoin.base aFirst 1) ∧
+    (historyE natOps .pending wSingle aFirst 6 1).final.val? = okOfE (runEager natOps wSingle.base aFirst 1) ∧
+    (historyE natOps .pending wCarried aFirst 8 1).final.val? = okOfE (runEager natOps wCarried.base aFirst 1) ∧
+    (historyE natOps .pending wJoin aFirst 6 1).execs = [("a", 1), ("j", 3), ("s", 1)] ∧
+    (runEager natOps wJoin.base aFirst 1).submitted = [("a", 1), ("s", 1), ("j", 3)] ∧
+    (historyE natOps .pending wJoin aFirst 6 1).calls = 2 ∧
+    (historyE natOps .pending wCarried aFirst 8 1).calls = 3 := by decide
+
+end Eager
 
 end EinoV.C05
